@@ -23,5 +23,6 @@ for p in "$@"; do
 done
 TD=$(VERIF_REPO="$W" python3 -c "import sys; sys.path.insert(0,'/verif'); from sim import build; print(build.target_dir())")
 rm -rf "$TD"
+TAG=${TD##*target-}; rm -rf "/verif/.build/bufsim-$TAG" "/verif/.build/target-bufsim-$TAG" "/verif/.build/target-miri-$TAG"
 git -C /repo worktree remove --force "$W"
 rm -rf "$D"
